@@ -15,6 +15,7 @@ REASONS = {
     53: "tick-sequence-of-a-scheduler-differs-from-model", 54: "master-tick-real-times-differ-from-model",
     61: "device-not-updated-exactly-once-in-initial-tick", 62: "later-tick-before-initial-tick-completed",
     81: "device-input-is-not-the-latest-upstream-value", 65: "callback-not-honoured", 66: "tick-time-invented",
+    67: "device-updated-without-a-cause",
     96: "tick-started-earlier-than-pacing-allows", 46: "tick-times-of-a-scheduler-decrease",
     71: "nested-and-flattened-configuration-observe-differently", 73: "harness-flattening-differs-from-coq-flatten",
     91: "disconnected-part-changes-observations",
